@@ -193,6 +193,9 @@ func (g *Gen) dataTypes(depth int) []*Type {
 			if depth > 0 {
 				ts = append(ts, TSlice(TUnion(u.Name)))
 			}
+		} else if len(u.TParams) == 1 {
+			// instantiations of a generic union
+			ts = append(ts, TUnion(u.Name, TInt), TUnion(u.Name, TString))
 		}
 	}
 	return ts
@@ -267,6 +270,16 @@ func (g *Gen) genTypeDecls() []*TopItem {
 			g.typeLabel[u.Name] = label
 		}
 		items = append(items, &TopItem{Types: []*TypeDecl{d}, Label: label, Refs: keys(g.curRefs)})
+	}
+	if g.P.Generics && g.chance(1, 2, "genericUnion") {
+		// type OptN<T> = | SomeN of T | NoneN
+		label := g.fresh("type")
+		n := strings.TrimPrefix(label, "type")
+		u := &UnionDecl{Name: "Opt" + n, TParams: []string{"T"}, Cases: []UCase{{Name: "Some" + n, Payload: TVar("T")}, {Name: "None" + n}}}
+		g.Unions = append(g.Unions, u)
+		g.typeLabel[u.Name] = label
+		g.label("type: generic union")
+		items = append(items, &TopItem{Types: []*TypeDecl{{Union: u}}, Label: label})
 	}
 	return items
 }
@@ -369,6 +382,11 @@ func (g *Gen) literal(sc *scope, t *Type, depth int) *Expr {
 		}
 		c := cands[g.intn(len(cands), "ctorCase")]
 		if c.Payload == nil {
+			if len(u.TParams) > 0 {
+				// a case without payload of a generic union is a function: None<int> ()
+				g.label("generic union case without payload")
+				return &Expr{K: "call", Name: c.Name, TArgs: t.E, Args: []*Expr{Unit()}, T: t}
+			}
 			return Var(c.Name, t)
 		}
 		pt := c.Payload.Subst(tparamMap(u.TParams, t.E))
